@@ -547,9 +547,16 @@ def client_rule_semantics_case():
             c.addMatch(got.append, **kw)
         except Exception as e:
             return 'client addMatch(%r) raised %s: %s' % (kw, type(e).__name__, e)
-        for md in MSGS:
+        # signals arrive through the connection's signalReceived - whatever their destination field says (our unique name, another
+        # connection's, a well-known name: the daemon delivered it here because a rule of ours matched) - other messages through the router
+        c.busName = ':1.7'
+        more = [dict(MSGS[0], destination=d) for d in (':1.7', ':1.99', 'org.well.Known')]
+        for md in MSGS + more:
             del got[:]
-            c.router.routeMessage(FakeMsg(md))
+            if md.get('type') == 4:
+                c.signalReceived(FakeMsg(md))
+            else:
+                c.router.routeMessage(FakeMsg(md))
             want = 1 if ref_matches(rule, md) else 0
             if len(got) != want:
                 return 'a client rule with the constraints %r was handed %r %d times, expected %d' % (rule, md, len(got), want)
